@@ -69,7 +69,7 @@ func NewStaticFilePlugin(_ PluginContext, options v1.ClientPluginOptions) (Plugi
 }
 
 func (sp *StaticFilePlugin) Handle(_ context.Context, connInfo *ConnectionInfo) {
-	wrapConn := netpkg.WrapReadWriteCloserToConn(connInfo.Conn, connInfo.UnderlyingConn)
+	wrapConn := serverConn(connInfo, false)
 	_ = sp.l.PutConn(wrapConn)
 }
 
